@@ -36,6 +36,19 @@ def queries(tier):
         qs.append(dict(name='skipws_len%d' % L, unit='json', harness='h_skipws.c', defs={'LEN': L}, unwind=L + 3, timeout=300, mem_gb=3,
                        desc='skip_whitespace_and_comments on %d symbolic bytes, symbolic mode: no exception, stops where the reference scanner stops' % L,
                        bounds='input length == %d, all byte values' % L))
+    for op, nm in ((0, 'peek'), (1, 'get'), (2, 'pget'), (3, 'eof')):
+        for L in ([0, 1, 3] if tier == 'quick' else [0, 1, 2, 3, 6]):
+            qs.append(dict(name='reader_%s_len%d' % (nm, L), unit='json', harness='h_reader.c', defs={'OP': op, 'LEN': L}, unwind=L + 3, timeout=300, mem_gb=3,
+                           desc='StringReader %s on a %d-byte buffer, symbolic offset: value / out_of_range exactly at the end, no access outside the buffer' % (nm, L),
+                           bounds='buffer length == %d, start offset 0..%d, pget offset 0..%d' % (L, L, L + 1)))
+    for L, K in ([(0, 1), (3, 1), (4, 4), (5, 5)] if tier == 'quick' else [(0, 1), (1, 1), (3, 1), (3, 4), (4, 4), (6, 4), (4, 5), (5, 5), (7, 5)]):
+        qs.append(dict(name='reader_skipif_len%d_lit%d' % (L, K), unit='json', harness='h_reader.c', defs={'OP': 4, 'LEN': L, 'LITLEN': K}, unwind=max(L, K) + 3, timeout=300, mem_gb=3,
+                       desc='StringReader::skip_if with a %d-byte symbolic literal on a %d-byte buffer (the parser uses 1, 4 and 5 byte literals)' % (K, L),
+                       bounds='buffer length == %d, literal length == %d' % (L, K)))
+    qs.append(dict(name='hex_char', unit='json', harness='h_reader.c', defs={'OP': 5, 'LEN': 0}, unwind=26, timeout=300, mem_gb=3,
+                   desc='value_for_hex_char on all 256 byte values', bounds='all 256 values'))
+    qs.append(dict(name='slice_len1_nb0', unit='json', harness='h_probe.c', defs={'LEN': 1, 'NB': 0}, unwind=8, flags=['--slice-formula'],
+                           unwindset=parse_unwindset(1, 0), object_bits=12, timeout=1500, mem_gb=10, desc='parse', bounds=''))
     for f in (91, 123):
         qs.append(dict(name='first%d_len2' % f, unit='json', harness='h_probe.c', defs={'LEN': 2, 'NB': 1, 'FIRST': f}, unwind=8,
                            unwindset=parse_unwindset(2, 1), object_bits=12, timeout=1500, mem_gb=10, desc='parse', bounds=''))
